@@ -18,7 +18,7 @@ use super::{chk, finish, harness};
 use crate::{BackpressurePolicy, Dispatcher, DroppableStore, Effect, Store as StoreTrait, StoreImpl};
 use std::sync::atomic::Ordering;
 use std::sync::Arc;
-use std::time::Instant;
+use super::rt::Instant;
 
 pub const PH_REDUCE: usize = 0;
 pub const PH_EFFECT: usize = 1;
